@@ -141,6 +141,15 @@ type c18Exec struct {
 	cache  map[string]*patch.Expression
 	cacheE map[string]error
 	out    []string
+	// values handed to operations that failed: they never became part of a resource, so they must
+	// still be what they were when every history has ended
+	rejected []rejectedValue
+}
+
+type rejectedValue struct {
+	where string
+	value fhir.Base
+	bytes []byte
 }
 
 func (e *c18Exec) violate(oracle, class, detail string) {
@@ -453,6 +462,9 @@ func (e *c18Exec) stepOp(r *runCtx, oc *opCtx, in *inputs, res fhir.Resource, ci
 		outcome = "panic"
 	} else if got.err != nil {
 		outcome = "err"
+	}
+	if outcome == "err" && value != nil && !op.BadUTF8 {
+		e.rejected = append(e.rejected, rejectedValue{where, value, valueBytes})
 	}
 	st.probe(op.Op + "-" + outcome)
 	for _, part := range strings.Split(op.Note, "+") {
@@ -1077,6 +1089,30 @@ func execC18(t *testing.T, c *Case) *Verdict {
 			v.Stats.Switches += sc.switches
 			v.Stats.Faults = addN(v.Stats.Faults, "preempt", sc.switches)
 			v.Stats.probeN("two-clients-inside-same-node", sc.overlapNode)
+		}
+		for _, rv := range e.rejected {
+			if !bytes.Equal(msgBytes(rv.value), rv.bytes) {
+				e.violate("patch-atomicity", "rejected-value-changed-later", rv.where+"\n  the operation failed, so its value never became part of the resource - yet the value object was modified by a later operation of the run")
+				break
+			}
+		}
+		v.Stats.probeN("rejected-values-rechecked", len(e.rejected))
+		// ... and no part of a rejected value may sit in any resource
+		inRes := map[proto.Message]bool{}
+		for _, pr := range private {
+			walkMessages(pr.ProtoReflect(), func(x protoreflect.Message) { inRes[x.Interface()] = true })
+		}
+		for _, rv := range e.rejected {
+			leaked := false
+			walkMessages(rv.value.ProtoReflect(), func(x protoreflect.Message) {
+				if inRes[x.Interface()] {
+					leaked = true
+				}
+			})
+			if leaked && len(v.Violations) == 0 {
+				e.violate("patch-atomicity", "rejected-value-retained", rv.where+"\n  the operation failed, yet (part of) its value object is now an element of a resource")
+				break
+			}
 		}
 		if a, b, what, shared := sharedAcross(private); shared && len(v.Violations) == 0 {
 			e.violate("patch-model", "aliased-across-resources", fmt.Sprintf("after the histories, the resources of client %d and client %d hold the very same %s object: patching one resource will change the other", a, b, what))
